@@ -338,7 +338,11 @@ def parse_nat_list(out, ident="M"):
 
 
 def zlit(n):
-    return "(%d)" % n if n < 0 else "%d" % n
+    """Coq Z literal; large values in hex: Coq 8.16 elaborates decimal numerals digit by digit (quadratic)"""
+    n = int(n)
+    if -10**9 < n < 10**9:
+        return "(%d)" % n if n < 0 else "%d" % n
+    return "(-0x%x)" % (-n) if n < 0 else "0x%x" % n
 
 
 def zlist(xs):
